@@ -64,18 +64,30 @@ Proof.
   destruct (p_id q =? pid); [rewrite Ho|]; reflexivity.
 Qed.
 
+Lemma pay_close_ev : forall ps s p id burn s1 e evs st,
+  ev_inv ps evs -> ps = props s -> find_prop id ps = Some p -> is_open (p_status p) = true ->
+  pay_out s p burn = Some (s1, e) -> is_open st = false ->
+  ev_inv (upd_prop id (fun q => close_as q st) ps) (evs ++ e).
+Proof.
+  intros until st. intros I -> Hf Ho Hp Hc.
+  apply pay_out_some in Hp as (A & _ & _ & _ & _ & _ & _ & ->).
+  eapply ev_close with (p := p) (g := fun q => close_as q st); eauto.
+  intro pid. rewrite (find_prop_id _ _ _ Hf). apply pays_map. intros da. destruct burn; lia.
+Qed.
+
 Lemma process_inactive_ev : forall P s id s' e evs,
   ev_inv (props s) evs -> process_inactive P s id = Some (s', e) -> ev_inv (props s') (evs ++ e).
 Proof.
   unfold process_inactive. intros until evs. intros I.
   destruct (find_prop id (props s)) as [p|] eqn:Hf; [|intro H; inversion H; subst; now rewrite app_nil_r].
-  destruct (p_status p) eqn:Hs; try (intro H; inversion H; subst; now rewrite app_nil_r).
-  destruct (pay_out s p (burn_prevote P)) as [[s1 e1]|] eqn:Hp; [|discriminate].
-  intro H; inversion H; subst. apply pay_out_some in Hp as (A & _ & _ & _ & _ & _ & _ & ->).
-  cbn [props set_props]. rewrite A.
-  eapply ev_close with (p := p) (g := fun q => close_as q SDropped); eauto.
-  - rewrite Hs; reflexivity.
-  - intro pid. rewrite (find_prop_id _ _ _ Hf). apply pays_map. intros da. destruct (burn_prevote P); lia.
+  destruct (p_status p) eqn:Hs; try solve [intro H; inversion H; subst; now rewrite app_nil_r]; try discriminate.
+  - destruct (pay_out s p (burn_prevote P)) as [[s1 e1]|] eqn:Hp; [|discriminate].
+    intro H; inversion H; subst. pose proof (pay_out_some _ _ _ _ _ Hp) as (A & _).
+    cbn [props set_props]. rewrite A. eapply pay_close_ev; eauto. rewrite Hs; reflexivity.
+  - destruct (pay_out s p false) as [[s1 e1]|] eqn:Hp; [|discriminate].
+    intro H; inversion H; subst. pose proof (pay_out_some _ _ _ _ _ Hp) as (A & _).
+    cbn [props set_props]. rewrite A. eapply pay_close_ev; eauto; [rewrite Hs; reflexivity|].
+    destruct (bad_inactive_dequeued P); reflexivity.
 Qed.
 
 Lemma process_active_ev : forall P kf stk s id s' e evs,
@@ -83,7 +95,11 @@ Lemma process_active_ev : forall P kf stk s id s' e evs,
 Proof.
   unfold process_active. intros until evs. intros I.
   destruct (find_prop id (props s)) as [p|] eqn:Hf; [|intro H; inversion H; subst; now rewrite app_nil_r].
-  destruct (p_status p) eqn:Hs; try (intro H; inversion H; subst; now rewrite app_nil_r).
+  destruct (p_status p) eqn:Hs; try solve [intro H; inversion H; subst; now rewrite app_nil_r].
+  2:{ destruct (bad_active_dequeued_by_key P); [|discriminate].
+      destruct (pay_out s p false) as [[s1 e1]|] eqn:Hp; [|discriminate].
+      intro H; inversion H; subst. pose proof (pay_out_some _ _ _ _ _ Hp) as (A & _).
+      cbn [props set_props]. rewrite A. eapply pay_close_ev; eauto. rewrite Hs; reflexivity. }
   set (v := tally P kf (custom s) stk p).
   assert (Ho : is_open (p_status p) = true) by (rewrite Hs; reflexivity).
   destruct (p_expedited p && negb (passes v)).
@@ -139,7 +155,7 @@ Proof.
     intro H; injection H as <- <- <-. rewrite app_nil_r.
     apply vote_props in E as [->|(p & Hf & Hs & ->)]; [assumption|]. cbn [props set_props].
     eapply ev_keep with (p := p) (g := fun q => with_votes q (set_vote voter opts (p_votes q))); eauto;
-      cbn; rewrite Hs; reflexivity.
+      cbn; destruct Hs as [-> | ->]; reflexivity.
   - intro H. apply cancel_inv in H as [(_ & -> & ->)|(p & _ & Hf & Ho & _ & Hp & _ & _ & _ & _ & _ & ->)];
       [now rewrite app_nil_r|].
     eapply ev_close with (p := p) (g := fun q => close_as q SCancelled); eauto.
@@ -157,6 +173,11 @@ Proof.
     destruct (negb (cparams_valid cp)); intro H; injection H as <- <- <-; now rewrite app_nil_r.
   - destruct (negb authorized); intro H; injection H as <- <- <-; now rewrite app_nil_r.
   - destruct (bal s acct + delta <? 0); intro H; injection H as <- <- <-; now rewrite app_nil_r.
+  - destruct (corrupt s pid) as [r0 s0] eqn:E. intro H; injection H as <- <- <-. rewrite app_nil_r.
+    apply corrupt_inv in E as [->|(p & st & Hf & Hst & ->)]; [assumption|]. cbn [props set_props].
+    eapply ev_keep with (p := p) (g := fun q => with_status q st); eauto.
+    + destruct Hst as [[-> _]|[-> _]]; reflexivity.
+    + cbn. destruct Hst as [[_ ->]|[_ ->]]; reflexivity.
 Qed.
 
 Lemma run_ev : forall P kf ops s s' e evs,
@@ -229,12 +250,17 @@ Proof.
   intro H; inversion H; subst. apply Forall_app; split.
   - eapply fold_ids_whole; [|exact E1]. unfold process_inactive. intros s0 id s0' e.
     destruct (find_prop id (props s0)) as [p|]; [|intro X; inversion X; constructor].
-    destruct (p_status p); try (intro X; inversion X; constructor).
-    destruct (pay_out s0 p (burn_prevote P)) as [[s3 e3]|] eqn:Hp; [|discriminate].
-    intro X; inversion X; subst. eapply pay_out_whole; eauto.
+    destruct (p_status p); try solve [intro X; inversion X; constructor]; try discriminate.
+    + destruct (pay_out s0 p (burn_prevote P)) as [[s3 e3]|] eqn:Hp; [|discriminate].
+      intro X; inversion X; subst. eapply pay_out_whole; eauto.
+    + destruct (pay_out s0 p false) as [[s3 e3]|] eqn:Hp; [|discriminate].
+      intro X; inversion X; subst. eapply pay_out_whole; eauto.
   - eapply fold_ids_whole; [|exact E2]. unfold process_active. intros s0 id s0' e.
     destruct (find_prop id (props s0)) as [p|]; [|intro X; inversion X; constructor].
-    destruct (p_status p); try (intro X; inversion X; constructor).
+    destruct (p_status p); try solve [intro X; inversion X; constructor].
+    2:{ destruct (bad_active_dequeued_by_key P); [|discriminate].
+        destruct (pay_out s0 p false) as [[s3 e3]|] eqn:Hp; [|discriminate].
+        intro X; inversion X; subst. eapply pay_out_whole; eauto. }
     destruct (p_expedited p && negb (passes _)); [intro X; inversion X; constructor|].
     destruct (pay_out s0 p _) as [[s3 e3]|] eqn:Hp; [|discriminate].
     destruct (passes _); [destruct (exec_msgs s3 (p_msgs p))|]; intro X; inversion X; subst;
@@ -247,9 +273,14 @@ Variable P : params.
 Variable kf : keyfun.
 
 Inductive evolve1 : proposal -> proposal -> Prop :=
-| E_dep : forall cust now d a p, is_open (p_status p) = true -> 0 <= a ->
+| E_dep : forall cust now d a p, is_open (p_status p) = true -> is_bad (p_status p) = false -> 0 <= a ->
     evolve1 p (deposited P kf cust now d a p)
-| E_vote : forall p v, p_status p = SVoting -> evolve1 p (with_votes p v)
+| E_vote : forall p v, p_status p = SVoting \/ p_status p = SBadVoting -> evolve1 p (with_votes p v)
+| E_corrupt : forall p st, (p_status p = SDeposit /\ st = SBadDeposit \/ p_status p = SVoting /\ st = SBadVoting) ->
+    evolve1 p (with_status p st)
+| E_bad_close : forall p st, is_bad (p_status p) = true ->
+    (st = (if bad_inactive_dequeued P then SDropped else SStale) \/ st = SFailedBad) ->
+    evolve1 p (close_as p st)
 | E_drop : forall p, p_status p = SDeposit -> evolve1 p (close_as p SDropped)
 | E_cancel : forall p, is_open (p_status p) = true -> evolve1 p (close_as p SCancelled)
 | E_tallied : forall p st cust stk, p_status p = SVoting ->
@@ -277,10 +308,13 @@ Lemma process_inactive_Q : forall s id s' e,
 Proof.
   unfold process_inactive. intros until e. intros F.
   destruct (find_prop id (props s)) as [p|] eqn:Hf; [|intro H; inversion H; subst; assumption].
-  destruct (p_status p) eqn:Hs; try (intro H; inversion H; subst; assumption).
-  destruct (pay_out s p (burn_prevote P)) as [[s1 e1]|] eqn:Hp; [|discriminate].
-  intro H; inversion H; subst. apply pay_out_some in Hp as (A & _). cbn [props set_props]. rewrite A.
-  eapply Forall_upd_Q; eauto. now constructor.
+  destruct (p_status p) eqn:Hs; try solve [intro H; inversion H; subst; assumption]; try discriminate.
+  - destruct (pay_out s p (burn_prevote P)) as [[s1 e1]|] eqn:Hp; [|discriminate].
+    intro H; inversion H; subst. apply pay_out_some in Hp as (A & _). cbn [props set_props]. rewrite A.
+    eapply Forall_upd_Q; eauto. now constructor.
+  - destruct (pay_out s p false) as [[s1 e1]|] eqn:Hp; [|discriminate].
+    intro H; inversion H; subst. apply pay_out_some in Hp as (A & _). cbn [props set_props]. rewrite A.
+    eapply Forall_upd_Q; eauto. apply E_bad_close; [rewrite Hs; reflexivity|auto].
 Qed.
 
 Lemma process_active_Q : forall stk s id s' e,
@@ -288,7 +322,11 @@ Lemma process_active_Q : forall stk s id s' e,
 Proof.
   unfold process_active. intros until e. intros F.
   destruct (find_prop id (props s)) as [p|] eqn:Hf; [|intro H; inversion H; subst; assumption].
-  destruct (p_status p) eqn:Hs; try (intro H; inversion H; subst; assumption).
+  destruct (p_status p) eqn:Hs; try solve [intro H; inversion H; subst; assumption].
+  2:{ destruct (bad_active_dequeued_by_key P); [|discriminate].
+      destruct (pay_out s p false) as [[s1 e1]|] eqn:Hp; [|discriminate].
+      intro H; inversion H; subst. apply pay_out_some in Hp as (A & _). cbn [props set_props]. rewrite A.
+      eapply Forall_upd_Q; eauto. apply E_bad_close; [rewrite Hs; reflexivity|auto]. }
   destruct (p_expedited p && negb (passes (tally P kf (custom s) stk p))) eqn:Hx.
   { intro H; inversion H; subst. cbn [props set_props]. apply andb_prop in Hx as [X1 X2].
     apply negb_true_iff in X2. eapply Forall_upd_Q; eauto. now constructor. }
@@ -311,7 +349,9 @@ Proof.
   - destruct (submit P kf now s proposer ms amt expedited valid bad_denom) as [r0 s0] eqn:E.
     intro H; injection H as <- <- <-. destruct r0;
       try (apply submit_err in E; [subst; assumption|discriminate]).
-    apply submit_ok_inv in E as (Hc & Ha & E). apply add_deposit_ok_inv in E as (p & Hf & Ho & _ & ->).
+    apply submit_ok_inv in E as (Hc & Ha & E). pose proof E as E0.
+    apply add_deposit_ok_inv in E as (p & Hf & Ho & _ & ->).
+    pose proof (add_deposit_ok_notbad _ _ _ _ _ _ _ _ _ _ E0 Hf) as Hnb.
     cbn [props] in *. eapply Forall_upd_Q; eauto.
     + apply Forall_app; split; [assumption|]. constructor; [now apply Q_new|constructor].
     + now constructor.
@@ -319,7 +359,8 @@ Proof.
     destruct (add_deposit P kf now s pid depositor amt bad_denom) as [r0 s0] eqn:E.
     intro H; injection H as <- <- <-. destruct r0;
       try (apply add_deposit_err in E; [subst; assumption|discriminate]).
-    apply add_deposit_ok_inv in E as (p & Hf & Ho & _ & ->). cbn [props].
+    pose proof E as E0. apply add_deposit_ok_inv in E as (p & Hf & Ho & _ & ->). cbn [props].
+    pose proof (add_deposit_ok_notbad _ _ _ _ _ _ _ _ _ _ E0 Hf) as Hnb.
     apply orb_false_elim in Ha as [Ha _]. apply Z.ltb_ge in Ha.
     eapply Forall_upd_Q; eauto. now constructor.
   - destruct (vote s pid voter opts weighted) as [r0 s0] eqn:E.
@@ -341,6 +382,9 @@ Proof.
     destruct (negb (cparams_valid cp)); intro H; injection H as <- <- <-; assumption.
   - destruct (negb authorized); intro H; injection H as <- <- <-; assumption.
   - destruct (bal s acct + delta <? 0); intro H; injection H as <- <- <-; assumption.
+  - destruct (corrupt s pid) as [r0 s0] eqn:E. intro H; injection H as <- <- <-.
+    apply corrupt_inv in E as [->|(p & st & Hf & Hst & ->)]; [assumption|]. cbn [props set_props].
+    eapply Forall_upd_Q; eauto. now constructor.
 Qed.
 
 Theorem props_invariant : forall b c ops s ev,
@@ -354,6 +398,97 @@ Proof.
   apply G. constructor.
 Qed.
 End Evolve.
+
+(* ------------------------------------------------------------------ with the ErrEncoding branches repaired *)
+(* If both undecodable-record branches remove the queue entry by the walk's own key (the proposed
+   patch of finding C15-3; the flags are generated facts), making records undecodable can no longer
+   stop the end blocker: the guard of end_block_never_fails reduces to "no spend from the module
+   account". *)
+Definition not_stale (p : proposal) : Prop := p_status p <> SStale.
+
+Lemma not_stale_evolve : forall P kf p p', bad_inactive_dequeued P = true ->
+  not_stale p -> evolve1 P kf p p' -> not_stale p'.
+Proof.
+  intros P kf p p' Hfix Hq He. unfold not_stale in *. destruct He; cbn.
+  - destruct (match p_status p with SDeposit => _ | _ => false end); [discriminate|assumption].
+  - assumption.
+  - destruct H as [[_ ->]|[_ ->]]; discriminate.
+  - rewrite Hfix in H0. destruct H0 as [->| ->]; discriminate.
+  - discriminate.
+  - discriminate.
+  - destruct H0 as [[-> _]|[[-> | ->] _]]; discriminate.
+  - discriminate.
+Qed.
+
+Lemma process_inactive_total_fixed : forall P s id,
+  bad_inactive_dequeued P = true -> wf s -> quiet s -> Forall not_stale (props s) ->
+  process_inactive P s id <> None.
+Proof.
+  intros P s id Hfix W [Q _] NS. unfold process_inactive.
+  destruct (find_prop id (props s)) as [p|] eqn:Hf; [|discriminate].
+  assert (Hns : not_stale p) by (rewrite Forall_forall in NS; apply NS; eapply find_prop_In; eauto).
+  destruct (p_status p) eqn:Hs; try discriminate; try (exfalso; apply Hns; assumption).
+  - destruct (pay_out s p (burn_prevote P)) as [[s1 e1]|] eqn:Hp; [discriminate|].
+    exfalso. eapply pay_out_total; eauto; [eapply find_prop_In; eauto|rewrite Hs; reflexivity].
+  - destruct (pay_out s p false) as [[s1 e1]|] eqn:Hp; [discriminate|].
+    exfalso. eapply pay_out_total; eauto; [eapply find_prop_In; eauto|rewrite Hs; reflexivity].
+Qed.
+
+Lemma process_active_total_fixed : forall P kf stk s id,
+  bad_active_dequeued_by_key P = true -> wf s -> quiet s -> process_active P kf stk s id <> None.
+Proof.
+  intros P kf stk s id Hfix W [Q _]. unfold process_active.
+  destruct (find_prop id (props s)) as [p|] eqn:Hf; [|discriminate].
+  destruct (p_status p) eqn:Hs; try discriminate.
+  - destruct (p_expedited p && negb (passes (tally P kf (custom s) stk p))); [discriminate|].
+    destruct (pay_out s p _) as [[s1 e1]|] eqn:Hp.
+    + destruct (passes _); [destruct (exec_msgs s1 (p_msgs p))|]; discriminate.
+    + exfalso. eapply pay_out_total; eauto; [eapply find_prop_In; eauto|rewrite Hs; reflexivity].
+  - rewrite Hfix. destruct (pay_out s p false) as [[s1 e1]|] eqn:Hp; [discriminate|].
+    exfalso. eapply pay_out_total; eauto; [eapply find_prop_In; eauto|rewrite Hs; reflexivity].
+Qed.
+
+Definition settled (s : state) : Prop := wf s /\ quiet s /\ Forall not_stale (props s).
+
+Lemma fold_ids_total_gen : forall (I : state -> Prop) f,
+  (forall s id, I s -> f s id <> None) ->
+  (forall s id s' ev, I s -> f s id = Some (s', ev) -> I s') ->
+  forall ids s, I s -> fold_ids f ids s <> None.
+Proof.
+  intros I f Ht Hp. induction ids as [|id r IH]; cbn; intros s Hs; [discriminate|].
+  destruct (f s id) as [[s1 e1]|] eqn:E; [|exfalso; eapply Ht; eauto].
+  specialize (IH s1 (Hp _ _ _ _ Hs E)). destruct (fold_ids f r s1) as [[s2 e2]|]; [discriminate|contradiction].
+Qed.
+
+Theorem end_block_never_fails_when_dequeued : forall P kf b c ops s ev t stk,
+  bad_inactive_dequeued P = true -> bad_active_dequeued_by_key P = true ->
+  Forall op_no_govsend ops ->
+  run P kf (init b c) ops = (s, ev) ->
+  end_block P kf t stk s <> None.
+Proof.
+  intros until stk. intros F1 F2 Hg Hr.
+  assert (S0 : settled s).
+  { split; [eapply run_wf; [apply init_wf|exact Hr]|]. split; [eapply run_quiet; [apply init_quiet|exact Hg|exact Hr]|].
+    eapply (props_invariant P kf not_stale); [| |exact Hr].
+    - intros p p' Hq He. eapply not_stale_evolve; eauto.
+    - intros. unfold not_stale. cbn. discriminate. }
+  assert (PI : forall s0 id s0' e0, settled s0 -> process_inactive P s0 id = Some (s0', e0) -> settled s0').
+  { intros s0 id s0' e0 (W & Q & NS) E. split; [eapply process_inactive_wf; eauto|].
+    split; [eapply process_inactive_quiet; eauto|].
+    eapply (process_inactive_Q P kf not_stale); eauto. intros p p' Hq He. eapply not_stale_evolve; eauto. }
+  assert (PA : forall s0 id s0' e0, settled s0 -> process_active P kf stk s0 id = Some (s0', e0) -> settled s0').
+  { intros s0 id s0' e0 (W & Q & NS) E. split; [eapply process_active_wf; eauto|].
+    split; [eapply process_active_quiet; eauto|].
+    eapply (process_active_Q P kf not_stale); eauto. intros p p' Hq He. eapply not_stale_evolve; eauto. }
+  unfold end_block.
+  destruct (fold_ids (process_inactive P) _ s) as [[s1 e1]|] eqn:E1.
+  - assert (S1 : settled s1) by (eapply (fold_ids_pres settled); [|exact S0|exact E1]; exact PI).
+    destruct (fold_ids (process_active P kf stk) _ s1) as [[s2 e2]|] eqn:E2; [discriminate|].
+    exfalso. revert E2. apply (fold_ids_total_gen settled); auto.
+    intros s0 id (W & Q & _). now apply process_active_total_fixed.
+  - exfalso. revert E1. apply (fold_ids_total_gen settled); auto.
+    intros s0 id (W & Q & NS). now apply process_inactive_total_fixed.
+Qed.
 
 (* ================================================================== single message type *)
 Definition same_type (ms : list msg) : Prop :=
@@ -425,7 +560,9 @@ Proof.
   intros P kf p p' He Hs. destruct He.
   - destruct (p_status p) eqn:E; try discriminate; auto.
     right. split; [reflexivity|]. exists cust, now, d, a. auto.
-  - left; assumption.
+  - left; exact Hs.
+  - cbn in Hs. destruct H as [[_ ->]|[_ ->]]; discriminate.
+  - cbn in Hs. destruct H0 as [->| ->]; [destruct (bad_inactive_dequeued P)|]; discriminate.
   - discriminate.
   - discriminate.
   - left; assumption.
@@ -451,7 +588,9 @@ Proof.
           cbn; [|discriminate].
         intros _. repeat split; auto; lia.
       * intros _. destruct (Hq eq_refl) as (A & B & C). repeat split; auto; lia.
-    + rewrite H in *. exact Hq.
+    + exact Hq.
+    + destruct H as [[_ ->]|[_ ->]]; discriminate.
+    + destruct H0 as [->| ->]; [destruct (bad_inactive_dequeued P)|]; discriminate.
     + discriminate.
     + discriminate.
     + rewrite H in Hq. intros _. destruct (Hq eq_refl) as (A & B & C). auto.
@@ -497,7 +636,9 @@ Proof.
         destruct (is_all_gte (coins_of_fx (p_total p + a)) [(fx, min_for P p)]); cbn; [|discriminate].
         intros _. unfold min_for. destruct (p_expedited p); split; auto; discriminate.
       * intros _. apply (Hq eq_refl).
-    + rewrite H in *. exact Hq.
+    + exact Hq.
+    + destruct H as [[_ ->]|[_ ->]]; discriminate.
+    + destruct H0 as [->| ->]; [destruct (bad_inactive_dequeued P)|]; discriminate.
     + discriminate.
     + discriminate.
     + rewrite H in Hq. intros _. apply (Hq eq_refl).
